@@ -178,3 +178,19 @@ LEVEL['C18'] = dict(
          'remove_matrixzeros writes the rendering without all-zero lines; remove_velocity header/estimates/site/epoch parts.',
     note='PARTIAL: the matrix part of remove_velocity and the three readers are proved for evaluated instances only; universal '
          'coverage of those is by correspondence and search. Hand model: trusted via correspondence (output bytes).')
+
+LEVEL['C15'] = dict(
+    technique='Lean 4 theorems over a hand model of coord.py generic in the conversion functions (same numbers by rfl, heights carried, N = ell − orth over an additive group, induction over conversion chains) + bitwise correspondence of the instance built from the regenerated conversions',
+    text='Machine-checked for every choice of conversion functions: each method returns exactly the functional conversion of its '
+         'fields for the requested ellipsoid, projection (call\'s for geo→tm, stored for tm→geo) and notation; geo↔tm and '
+         'notation keep both heights exactly (incl. None and 0); cart→geo gives orth = ell − N, geo→cart gives N = ell − orth '
+         '(zeros included); all 36 notation pairs are defined and preserve the denoted angle; along any chain the position '
+         'depends only on the start position and N = ell − orth is invariant.',
+    note='PARTIAL: the 0.3 mm closure in binary64 (search). Hand model: trusted via correspondence (zero disagreements, bitwise).')
+LEVEL['C20'] = dict(
+    technique='Lean 4 theorems over a hand model of the Flask handlers generic in the wired functions (handler = wiring spec for every query incl. error order, nine type combinations, route list) + bitwise correspondence through the Flask test client',
+    text='Machine-checked for all queries and all library functions: /vincinv passes lat1, lon1, lat2, lon2 in that order through '
+         'the input conversion (dd = identity, dms = hp2dec, default dd), returns ell_dist unconverted and both azimuths '
+         'through the output conversion (dms = dec2hp); /vincdir likewise; input and output types are independent; the '
+         'routed paths are /, /vincinv, /vincdir (compared with app.url_map on every run).',
+    note='Flask/Werkzeug parsing and jsonify formatting are covered by correspondence only. Hand model: trusted via correspondence.')
